@@ -45,6 +45,7 @@ def task_rows(df):
 
 
 def event_rows(ev):
+    """the five documented fields of every entry (C13's view)"""
     if ev is None or len(ev) == 0:
         return []
     out = []
@@ -55,12 +56,24 @@ def event_rows(ev):
     return out
 
 
+def event_rows_all(ev):
+    """every column of every entry (what C10/C11 compare: the whole log)"""
+    if ev is None or len(ev) == 0:
+        return []
+    cols = sorted(str(c) for c in ev.columns)
+    out = []
+    for idx, row in ev.iterrows():
+        out.append(tuple((c, _norm(row[c]) if not isinstance(
+            row[c], str) else row[c]) for c in cols))
+    return out
+
+
 def outputs(run):
     """(per-timestep rows, task table, event log) of a finished FULL run"""
     sim = run.sim
     return {"df": df_rows(sim.monitor.df),
             "tasks": task_rows(sim._generate_final_task_data()),
-            "events": event_rows(sim.monitor.events)}
+            "events": event_rows_all(sim.monitor.events)}
 
 
 def truth_row(snap, M):
